@@ -6,8 +6,8 @@ package main
 import (
 	"go/ast"
 	"go/token"
-	"sort"
 	"go/types"
+	"sort"
 	"strings"
 
 	"golang.org/x/tools/go/ssa"
@@ -920,16 +920,60 @@ func ruleR10_9(p *Program, r *Report) {
 		flush = fn.Params[1]
 	}
 	lab := newLabeler()
+	// the loop body may have been extracted into a step helper returning (done bool, err error): its returns with
+	// done possibly true are the returns of compressBlock, its flush parameter is compressBlock's
+	keyFn := fn
+	var doneIdx = -1
+	hasGenerate := func(g *ssa.Function) bool {
+		for _, c := range allCalls(g) {
+			if c.Common().IsInvoke() && c.Common().Method.Name() == "generate" {
+				return true
+			}
+		}
+		return false
+	}
+	if !hasGenerate(fn) {
+		for _, c := range allCalls(fn) {
+			h := c.Common().StaticCallee()
+			if h == nil || h.Blocks == nil || h.Pkg != fn.Pkg || len(c.Common().Args) == 0 || c.Common().Args[0] != ssa.Value(fn.Params[0]) || !hasGenerate(h) {
+				continue
+			}
+			res := h.Signature.Results()
+			if res.Len() != 2 || !isBoolType(res.At(0).Type()) || !isErrorType(res.At(1).Type()) {
+				continue
+			}
+			for i, a := range c.Common().Args {
+				if a == ssa.Value(flush) && i < len(h.Params) {
+					fn, flush, doneIdx = h, h.Params[i], 0
+				}
+			}
+		}
+	}
 	for _, b := range fn.Blocks {
 		for _, in := range b.Instrs {
 			ret, ok := in.(*ssa.Return)
 			if !ok {
 				continue
 			}
-			key := shortFn(fn) + "|" + lab.get("return")
+			if doneIdx >= 0 {
+				if k, isK := constInt(ret.Results[doneIdx]); isK && k == 0 {
+					continue // done == false: the caller's loop goes on
+				}
+			}
+			key := shortFn(keyFn) + "|" + lab.get("return")
 			facts := dominatingFacts(ret)
 			e := returnErr(ret)
 			exempt, drained := false, false
+			if doneIdx >= 0 {
+				// done is the comparison itself: the caller stops exactly when everything is encoded
+				if bo, ok := ret.Results[doneIdx].(*ssa.BinOp); ok && bo.Op == token.EQL {
+					_, s1, ok1 := fieldLoad(bo.X)
+					_, s2, ok2 := fieldLoad(bo.Y)
+					if ok1 && ok2 && ((s1 == ".idx" && s2 == ".end") || (s1 == ".end" && s2 == ".idx")) {
+						drained = true
+					}
+				}
+			}
 			for _, f := range facts {
 				// behind !flush
 				if f.Y == nil && f.X == ssa.Value(flush) && f.Op == token.NEQ {
@@ -1107,7 +1151,7 @@ func ruleR18_12(p *Program, r *Report) {
 		return
 	}
 	// the Go sibling: strictness of the comparison that leads to errInvalidLookBack
-	goStrict := false
+	goStrict, goSeen, goLoose := false, false, ""
 	if fn := p.Func(flateRel, "decodeHuffmanLargeLoop"); fn != nil {
 		for _, b := range fn.Blocks {
 			for _, in := range b.Instrs {
@@ -1118,13 +1162,29 @@ func ruleR18_12(p *Program, r *Report) {
 				if g, ok := u.X.(*ssa.Global); !ok || g.Name() != "errInvalidLookBack" {
 					continue
 				}
-				for _, f := range dominatingFacts(in) {
-					if f.Y != nil && (f.Op == token.LSS || f.Op == token.GTR) {
-						goStrict = true
+				// the comparison on the edge that leads straight into this block
+				for _, pr := range in.Block().Preds {
+					if br, ok := edgeCond(pr, in.Block()); ok {
+						if f, ok := branchFact(br); ok && f.Y != nil {
+							goSeen = true
+							if f.Op == token.LSS || f.Op == token.GTR {
+								goStrict = true
+							} else {
+								goLoose = p.InstrPos(in)
+							}
+						}
 					}
 				}
 			}
 		}
+	}
+	if goSeen {
+		why := ""
+		if goLoose != "" {
+			goStrict = false
+			why = "the comparison that leads to errInvalidLookBack at " + goLoose + " is not strict: a match that reaches back exactly to the first byte produced (distance == bytes written) is rejected by the Go loop, while the assembly loop accepts it - the verdict depends on which loop meets the match, hence on the delivery"
+		}
+		r.Check(goLoose == "", "R18.12", "decodeHuffmanLargeLoop|look-back test", "-", "the Go loop rejects a look-back distance only when it exceeds the bytes produced (strict comparison)", why)
 	}
 	strict := map[string]bool{"JL": true, "JLT": true, "JG": true, "JGT": true, "JB": true, "JCS": true, "JLO": true, "JA": true, "JHI": true}
 	loose := map[string]bool{"JLE": true, "JGE": true, "JBE": true, "JLS": true, "JAE": true, "JCC": true, "JHS": true, "JNA": true, "JNB": true}
@@ -1429,18 +1489,46 @@ func ruleR03_10(p *Program, r *Report) {
 		r.Undecided("R03.10", "anchors", "-", "decompressor has one error field", "not found")
 		return
 	}
-	okVal := func(v ssa.Value) (bool, string) {
+	var okValIn func(v ssa.Value, rcv ssa.Value, depth int) (bool, string)
+	okValIn = func(v ssa.Value, rcv ssa.Value, depth int) (bool, string) {
 		for _, leaf := range p.valueSources(v) {
-			if isNil(leaf) || isStickyLoad(leaf, recv, sticky) {
+			if isNil(leaf) || isStickyLoad(leaf, rcv, sticky) {
 				continue
 			}
-			if c, ok := leaf.(*ssa.Call); ok && c.Common().StaticCallee() == st {
+			var call *ssa.Call
+			if c, ok := leaf.(*ssa.Call); ok {
+				call = c
+			} else if ex, ok := leaf.(*ssa.Extract); ok {
+				call, _ = ex.Tuple.(*ssa.Call)
+			}
+			if call != nil && call.Common().StaticCallee() == st {
 				continue
+			}
+			// a helper on the same receiver: every error it returns is judged the same way
+			if call != nil && depth < 2 {
+				if h := call.Common().StaticCallee(); h != nil && h.Blocks != nil && h.Pkg == fn.Pkg && len(call.Common().Args) > 0 && call.Common().Args[0] == rcv {
+					allOK := true
+					for _, hb := range h.Blocks {
+						for _, hin := range hb.Instrs {
+							if ret, ok := hin.(*ssa.Return); ok {
+								if e := returnErr(ret); e != nil {
+									if ok2, _ := okValIn(e, h.Params[0], depth+1); !ok2 {
+										allOK = false
+									}
+								}
+							}
+						}
+					}
+					if allOK {
+						continue
+					}
+				}
 			}
 			return false, describeValue(leaf)
 		}
 		return true, ""
 	}
+	okVal := func(v ssa.Value) (bool, string) { return okValIn(v, recv, 0) }
 	lab := newLabeler()
 	for _, b := range fn.Blocks {
 		for _, in := range b.Instrs {
@@ -2748,12 +2836,25 @@ func ruleR10_11(p *Program, r *Report) {
 	}
 	lab := newLabeler()
 	n := 0
-	for _, c := range allCalls(fn) {
-		if c.Common().StaticCallee() != eb || len(c.Common().Args) < 2 {
+	// the call may sit in a helper the loop body was extracted into: the rule is applied where the call is
+	root := fn
+	var sites []ssa.CallInstruction
+	siteFn := map[ssa.CallInstruction]*ssa.Function{}
+	for _, rf := range recvRegion(root) {
+		if rf.fn == eb {
 			continue
 		}
+		for _, c := range allCalls(rf.fn) {
+			if c.Common().StaticCallee() == eb && len(c.Common().Args) >= 2 {
+				sites = append(sites, c)
+				siteFn[c] = rf.fn
+			}
+		}
+	}
+	for _, c := range sites {
+		fn := siteFn[c]
 		n++
-		key := shortFn(fn) + "|" + lab.get("final flag of encodeBlock")
+		key := shortFn(root) + "|" + lab.get("final flag of encodeBlock")
 		arg := c.Common().Args[1]
 		// the flag must depend on idx == end: either in its data/control slice, or as a dominating fact of the call
 		dep := false
@@ -3196,7 +3297,6 @@ func init() {
 		"(R18.15) bit budget of the assembly decode loop: with the guaranteed number of valid bits set to 57 by every refill idiom and reduced at every consumption by the RFC maximum of what the count can be (lit/len entry 20, distance entry 15, constant itself), no consumption in decodeHuffmanAsmArchV3 can take more bits than are valid, on any path through the loop.")
 	extend("C02", Rule{ID: "R02.14", Configs: "asm", Run: ruleR18_15}, "(R02.14) = R18.15.")
 }
-
 
 func init() {
 	extend("C03", Rule{ID: "R03.12", Configs: "all", Run: ruleR03_12},
@@ -3944,6 +4044,7 @@ func ruleR11_7(p *Program, r *Report) {
 				}
 				n++
 				good := false
+				nonStrict := false
 				for _, f := range dominatingFacts(ld) {
 					for _, v := range []ssa.Value{f.X, f.Y} {
 						if v == nil {
@@ -3963,12 +4064,25 @@ func ruleR11_7(p *Program, r *Report) {
 							}
 						}
 						if hasBits && hasIn {
-							good = true
+							// and the comparison is strict: exactly enough bytes is not end of input
+							other := f.Y
+							if v == f.Y {
+								other = f.X
+							}
+							_ = other
+							strict := f.Op == token.GTR || f.Op == token.LSS
+							if strict {
+								good = true
+							} else {
+								nonStrict = true
+							}
 						}
 					}
 				}
 				why := ""
-				if !good {
+				if !good && nonStrict {
+					why = "errEndInput is produced when the bytes needed equal the bytes available (a non-strict comparison): a final stored block that is completely there is copied and then waited on for ever"
+				} else if !good {
 					why = "errEndInput is produced on a path that is not behind a comparison with bitsLen/8 + len(input): data bytes still held in the bit buffer would be stranded while the reader asks for more input"
 				}
 				r.Check(good, id, shortFn(rf.fn)+"|"+lab.get("end of input"), p.InstrPos(ld), "end of input in a stored block is decided on the bytes of bit buffer and input together", why)
@@ -5696,4 +5810,884 @@ func ruleR19_7(p *Program, r *Report) {
 	if n == 0 {
 		r.Undecided("R19.7", "sites", "-", "the constructors delegate some levels to compress/flate", "no call of compress/flate.NewWriter found")
 	}
+}
+
+// ---------- R01.16: the histogram fold and its inverse agree on the specially placed symbol ----------
+
+func init() {
+	extend("C01", Rule{ID: "R01.16", Configs: "all", Run: ruleR01_16},
+		"(R01.16) reduceCounts and expandCodes are inverse mappings between the raw length slots and the RFC length symbols; every slot that expandCodes fills outside its loops (literalCodes[K] = code of symbol S, K constant) has the mirror statement in reduceCounts (count of symbol S = count of slot K): the length-258 symbol 285 is emitted through slot 512, and a count that is not folded onto it leaves it without a code.")
+}
+
+func ruleR01_16(p *Program, r *Report) {
+	r.Expect("R01.16", 1)
+	red := p.Method(deflRel, "histogram", "reduceCounts")
+	exp := p.Method(deflRel, "histogram", "expandCodes")
+	if red == nil || exp == nil {
+		r.Undecided("R01.16", "anchors", "-", "histogram.reduceCounts and expandCodes exist", "not found")
+		return
+	}
+	// expandCodes: origin is a copy of literalCodes[base:]; a store literalCodes[K] = origin[J]
+	base := int64(-1)
+	for _, c := range allCalls(exp) {
+		if bi, ok := c.Common().Value.(*ssa.Builtin); ok && bi.Name() == "copy" {
+			if sl, ok := c.Common().Args[1].(*ssa.Slice); ok && sl.Low != nil {
+				if k, isK := constInt(sl.Low); isK {
+					if _, sel := accessPath(sl.X); strings.HasSuffix(sel, "literalCodes") {
+						base = k
+					}
+				}
+			}
+		}
+	}
+	type pair struct{ slot, sym int64 }
+	var special []pair
+	var at []ssa.Instruction
+	for _, b := range exp.Blocks {
+		for _, in := range b.Instrs {
+			st, ok := in.(*ssa.Store)
+			if !ok {
+				continue
+			}
+			ia, ok := st.Addr.(*ssa.IndexAddr)
+			if !ok {
+				continue
+			}
+			if _, sel := accessPath(ia.X); !strings.HasSuffix(sel, "literalCodes") {
+				continue
+			}
+			k, isK := constInt(ia.Index)
+			if !isK {
+				continue
+			}
+			// value: load of origin[J]
+			ld, ok := st.Val.(*ssa.UnOp)
+			if !ok || ld.Op != token.MUL {
+				continue
+			}
+			ja, ok := ld.X.(*ssa.IndexAddr)
+			if !ok {
+				continue
+			}
+			if _, isAlloc := ja.X.(*ssa.Alloc); !isAlloc {
+				continue
+			}
+			j, isJ := constInt(ja.Index)
+			if isJ && base >= 0 {
+				special = append(special, pair{k, base + j})
+				at = append(at, st)
+			}
+		}
+	}
+	if len(special) == 0 {
+		r.Undecided("R01.16", shortFn(exp)+"|special slots", p.Pos(exp.Pos()), "expandCodes places some symbol's code in a constant slot outside its loops", "none found")
+		return
+	}
+	for i, sp := range special {
+		found := false
+		for _, b := range red.Blocks {
+			for _, in := range b.Instrs {
+				st, ok := in.(*ssa.Store)
+				if !ok {
+					continue
+				}
+				ia, ok := st.Addr.(*ssa.IndexAddr)
+				if !ok {
+					continue
+				}
+				k, isK := constInt(ia.Index)
+				if !isK || k != sp.sym {
+					continue
+				}
+				for _, leaf := range p.valueSources(st.Val) {
+					if ld, ok := leaf.(*ssa.UnOp); ok && ld.Op == token.MUL {
+						if ja, ok := ld.X.(*ssa.IndexAddr); ok {
+							if j, isJ := constInt(ja.Index); isJ && j == sp.slot {
+								found = true
+							}
+						}
+					}
+				}
+			}
+		}
+		why := ""
+		if !found {
+			why = "expandCodes gives slot " + itoa(int(sp.slot)) + " the code of symbol " + itoa(int(sp.sym)) + ", but reduceCounts never folds the count of slot " + itoa(int(sp.slot)) + " onto symbol " + itoa(int(sp.sym)) + ": a block that uses the slot gets a zero-length code for it"
+		}
+		r.Check(found, "R01.16", shortFn(red)+"|slot "+itoa(int(sp.slot))+" folds onto symbol "+itoa(int(sp.sym)), p.InstrPos(at[i]), "the fold of the raw histogram mirrors the special placement made by expandCodes", why)
+	}
+}
+
+// ---------- round 14 ----------
+
+func init() {
+	extend("C03", Rule{ID: "R03.16", Configs: "all", Run: ruleR03_16},
+		"(R03.16) the 'no codes' early exit of a lookup-table builder (a return that no copy-forward of the table reaches) is taken only when the code count is zero: the exit is dominated by an equality of an integer with 0 (or <= 0, < 1), not by a range that also takes a one-code tree - a block whose single distance code is used by its matches would meet an empty table.")
+	extend("C02", Rule{ID: "R02.19", Configs: "all", Run: ruleR03_16}, "(R02.19) = R03.16.")
+	extend("C15", Rule{ID: "R15.3", Configs: "all", Run: ruleR15_3},
+		"(R15.3) in Read of every Reader type, a return of the constants (0, nil) - nothing delivered, no error - is behind the nil edge of the sticky-error test: an empty-buffer fast path in front of that test answers (0, nil) for ever after a failure.")
+	extend("C11", Rule{ID: "R11.8", Configs: "all", Run: ruleR11_8},
+		"(R11.8) in the inflater's step nothing stores into writePos after the decoder call: what a pass has decoded before the decoder met malformed input or ran out of input is delivered (R11.2 orders the error behind it), never taken back.")
+	extend("C08", Rule{ID: "R08.5", Configs: "all", Run: ruleR08_5},
+		"(R08.5) the stored-block copier returns a nil error with the block's phase already advanced only when nothing of the block is left: a return of a constant nil error that no store of the remaining length precedes is dominated by litBlockLength == 0 (a full output window is reported as output overflow, with the phase kept).")
+	extend("C02", Rule{ID: "R02.20", Configs: "all", Run: ruleR08_5}, "(R02.20) = R08.5.")
+}
+
+func ruleR03_16(p *Program, r *Report) {
+	id := "R03.16"
+	if r.Prop == "C02" {
+		id = "R02.19"
+	}
+	r.Expect(id, 1)
+	n := 0
+	for _, tn := range []string{"largeHuffCodeTable", "smallHuffCodeTable"} {
+		named := p.Named(flateRel, tn)
+		if named == nil {
+			continue
+		}
+		for _, fn := range p.Funcs() {
+			if fn.Signature.Recv() == nil || derefNamed(fn.Signature.Recv().Type()) != named {
+				continue
+			}
+			recv := fn.Params[0]
+			var copies []ssa.Instruction
+			for _, c := range allCalls(fn) {
+				if bi, ok := c.Common().Value.(*ssa.Builtin); ok && bi.Name() == "copy" {
+					if r0, _ := accessPath(c.Common().Args[0]); r0 == ssa.Value(recv) {
+						copies = append(copies, c)
+					}
+				}
+			}
+			if len(copies) == 0 {
+				continue
+			}
+			lab := newLabeler()
+			for _, b := range fn.Blocks {
+				for _, in := range b.Instrs {
+					ret, ok := in.(*ssa.Return)
+					if !ok {
+						continue
+					}
+					after := false
+					for _, c := range copies {
+						if reach, _, _ := (PathQuery{Start: c, Target: func(x ssa.Instruction) bool { return x == ssa.Instruction(ret) }}).Find(fn); reach {
+							after = true
+						}
+					}
+					if after {
+						continue
+					}
+					// is the normal end of the function also reachable without a copy? then this is not an early exit
+					n++
+					zero := false
+					rng := ""
+					for _, f := range dominatingFacts(ret) {
+						if f.Y == nil {
+							continue
+						}
+						k, isK := constInt(f.Y)
+						x := f.X
+						op := f.Op
+						if !isK {
+							if k, isK = constInt(f.X); isK {
+								x = f.Y
+								switch op {
+								case token.LSS:
+									op = token.GTR
+								case token.LEQ:
+									op = token.GEQ
+								case token.GTR:
+									op = token.LSS
+								case token.GEQ:
+									op = token.LEQ
+								}
+							}
+						}
+						if !isK || intSize(x.Type()) == 0 {
+							continue
+						}
+						switch {
+						case op == token.EQL && k == 0, op == token.LEQ && k == 0, op == token.LSS && k == 1:
+							zero = true
+						case (op == token.LEQ && k >= 1) || (op == token.LSS && k >= 2):
+							rng = op.String() + " " + itoa(int(k))
+						}
+					}
+					why := ""
+					if !zero {
+						why = "the early exit is not behind 'count == 0'"
+						if rng != "" {
+							why += " but behind 'count " + rng + "': a tree with one code is treated as empty"
+						}
+					}
+					r.Check(zero, id, shortFn(fn)+"|"+lab.get("no-codes exit"), p.InstrPos(ret), "the table builder leaves early only when there is no code at all", why)
+				}
+			}
+		}
+	}
+	if n == 0 {
+		r.Undecided(id, "builders", "-", "a lookup-table builder has a no-codes early exit", "none found")
+	}
+}
+
+func ruleR15_3(p *Program, r *Report) {
+	r.Expect("R15.3", 1)
+	n := 0
+	for _, tr := range p.ReaderTypes() {
+		fn := tr.Ops["Read"]
+		if fn == nil || !readerPkg(fn) || tr.Sticky == "" {
+			continue
+		}
+		recv := fn.Params[0]
+		n++
+		lab := newLabeler()
+		bad := ""
+		for _, b := range fn.Blocks {
+			for _, in := range b.Instrs {
+				ret, ok := in.(*ssa.Return)
+				if !ok || len(ret.Results) != 2 {
+					continue
+				}
+				k, isK := constInt(ret.Results[0])
+				if !isK || k != 0 || !isNil(ret.Results[1]) {
+					continue
+				}
+				guarded := false
+				for _, f := range dominatingFacts(ret) {
+					if f.Op == token.EQL && f.Y != nil && ((isStickyLoad(f.X, recv, tr.Sticky) && isNil(f.Y)) || (isStickyLoad(f.Y, recv, tr.Sticky) && isNil(f.X))) {
+						guarded = true
+					}
+				}
+				if !guarded {
+					bad = p.InstrPos(ret)
+				}
+				_ = lab
+			}
+		}
+		why := ""
+		if bad != "" {
+			why = "the return (0, nil) at " + bad + " is not behind the nil edge of the ." + tr.Sticky + " test: after a failure such a Read reports no error"
+		}
+		r.Check(bad == "", "R15.3", shortFn(fn)+"|no (0, nil) in front of the sticky test", p.Pos(fn.Pos()), "Read answers (0, nil) only while no error has been recorded", why)
+	}
+	if n == 0 {
+		r.Undecided("R15.3", "readers", "-", "Reader types with a sticky error exist", "none found")
+	}
+}
+
+func ruleR11_8(p *Program, r *Report) {
+	r.Expect("R11.8", 1)
+	fn := p.Method(flateRel, "decompressor", "step")
+	dec := p.Method(flateRel, "decompressor", "decomperss")
+	if fn == nil || dec == nil {
+		r.Undecided("R11.8", "anchors", "-", "decompressor.step and the decoder it calls exist", "not found")
+		return
+	}
+	var decCall ssa.Instruction
+	for _, c := range allCalls(fn) {
+		if c.Common().StaticCallee() == dec {
+			decCall = c
+		}
+	}
+	if decCall == nil {
+		r.Undecided("R11.8", shortFn(fn)+"|decoder call", p.Pos(fn.Pos()), "step calls the decoder", "not found")
+		return
+	}
+	isStore := func(in ssa.Instruction) bool {
+		if st, ok := in.(*ssa.Store); ok {
+			root, sel := accessPath(st.Addr)
+			return root == ssa.Value(fn.Params[0]) && sel == ".writePos"
+		}
+		// a same-receiver helper (other than the decoder) that stores it
+		if c, ok := in.(ssa.CallInstruction); ok && in != decCall {
+			if h := c.Common().StaticCallee(); h != nil && h.Blocks != nil && h.Pkg == fn.Pkg && h != dec && len(c.Common().Args) > 0 && c.Common().Args[0] == ssa.Value(fn.Params[0]) {
+				for _, w := range p.Effects().ParamWrites(h, 0) {
+					if w == ".writePos" {
+						return true
+					}
+				}
+			}
+		}
+		return false
+	}
+	found, hit, _ := PathQuery{Start: decCall, Target: isStore}.Find(fn)
+	why := ""
+	if found {
+		why = "writePos is stored at " + p.InstrPos(hit) + " after the decoder has run: bytes already decoded in this pass (for example the data before a sync-flush point that is followed by foreign bytes) are taken back"
+	}
+	r.Check(!found, "R11.8", shortFn(fn)+"|decoded bytes are not taken back", p.InstrPos(decCall), "after the decoder call step does not move the write cursor", why)
+}
+
+func ruleR08_5(p *Program, r *Report) {
+	id := "R08.5"
+	if r.Prop == "C02" {
+		id = "R02.20"
+	}
+	r.Expect(id, 1)
+	fn := p.Method(flateRel, "inflate", "decodeLiteralBlock")
+	if fn == nil {
+		r.Undecided(id, "anchors", "-", "inflate.decodeLiteralBlock exists", "not found")
+		return
+	}
+	isLenStore := func(in ssa.Instruction) bool {
+		st, ok := in.(*ssa.Store)
+		if !ok {
+			return false
+		}
+		_, sel := accessPath(st.Addr)
+		return strings.HasSuffix(sel, ".litBlockLength") || sel == ".litBlockLength"
+	}
+	n := 0
+	lab := newLabeler()
+	for _, b := range fn.Blocks {
+		for _, in := range b.Instrs {
+			ret, ok := in.(*ssa.Return)
+			if !ok {
+				continue
+			}
+			e := returnErr(ret)
+			if e == nil || !isNil(e) {
+				continue
+			}
+			// bookkeeping done before? (a store of the remaining length on every path to this return)
+			early, _, _ := PathQuery{Target: func(x ssa.Instruction) bool { return x == ssa.Instruction(ret) }, Barrier: isLenStore}.Find(fn)
+			if !early {
+				continue
+			}
+			n++
+			okFact := false
+			for _, f := range dominatingFacts(ret) {
+				if f.Y == nil || f.Op != token.EQL {
+					continue
+				}
+				for _, pair := range [][2]ssa.Value{{f.X, f.Y}, {f.Y, f.X}} {
+					if k, isK := constInt(pair[1]); isK && k == 0 {
+						if _, sel, isL := fieldLoad(stripConv(pair[0])); isL && strings.HasSuffix(sel, "litBlockLength") {
+							okFact = true
+						}
+					}
+				}
+			}
+			why := ""
+			if !okFact {
+				why = "this return reports the stored block as finished (nil error, phase already advanced) on a path that is not behind litBlockLength == 0: with the output window full the block's payload is skipped and parsed as the next header"
+			}
+			r.Check(okFact, id, shortFn(fn)+"|"+lab.get("early nil return"), p.InstrPos(ret), "the stored-block copier finishes early only when the block is empty", why)
+		}
+	}
+	if n == 0 {
+		r.OK(id, shortFn(fn)+"|census", p.Pos(fn.Pos()), "no early nil return in the stored-block copier")
+	}
+}
+
+func init() {
+	extend("C17", Rule{ID: "R17.6", Configs: "all", Run: ruleR17_6},
+		"(R17.6) the library performs no channel operation (make, send, receive, select) anywhere: a channel held in a package variable - a semaphore that decides which match finder a Writer may use - is shared state although nothing is imported from sync and no field is written; results would depend on what other goroutines do at that moment.")
+	controlRegistry["C17"] = append(controlRegistry["C17"], Control{Rule: "R17.6", Run: ruleR17_6, MustFire: []string{"limited"}})
+}
+
+func ruleR17_6(p *Program, r *Report) {
+	r.Expect("R17.6", 1)
+	n := 0
+	for _, fn := range p.Funcs() {
+		if isExamples(fn) {
+			continue
+		}
+		lab := newLabeler()
+		var visit func(f *ssa.Function)
+		visit = func(f *ssa.Function) {
+			for _, b := range f.Blocks {
+				for _, in := range b.Instrs {
+					what := ""
+					switch x := in.(type) {
+					case *ssa.Send:
+						what = "send"
+					case *ssa.Select:
+						what = "select"
+					case *ssa.MakeChan:
+						what = "make(chan)"
+					case *ssa.UnOp:
+						if x.Op == token.ARROW {
+							what = "receive"
+						}
+					}
+					if what != "" {
+						n++
+						r.Fail("R17.6", shortFn(fn)+"|"+lab.get(what), p.InstrPos(in), "the library uses no channels", "channel operation ("+what+"): state shared between instances through a channel")
+					}
+				}
+			}
+			for _, an := range f.AnonFuncs {
+				visit(an)
+			}
+		}
+		visit(fn)
+	}
+	// package initialisers (a channel made at package level)
+	for _, sp := range p.SSA {
+		if ini := sp.Func("init"); ini != nil {
+			for _, b := range ini.Blocks {
+				for _, in := range b.Instrs {
+					if _, ok := in.(*ssa.MakeChan); ok {
+						n++
+						r.Fail("R17.6", sp.Pkg.Name()+".init|make(chan)", p.InstrPos(in), "the library uses no channels", "a channel is created at package level: every instance shares it")
+					}
+				}
+			}
+		}
+	}
+	if n == 0 {
+		r.OK("R17.6", "census", "-", "no channel operation in the library packages")
+	}
+}
+
+func init() {
+	extend("C07", Rule{ID: "R07.6", Configs: "all", Run: ruleR07_6},
+		"(R07.6) a container Reader never goes back to its caller with an unverified io.EOF in its sticky field: every return of Read that the inflater call can reach is behind the edge 'sticky != io.EOF', or behind the verified trailer, or returns the sticky field holding something that cannot be io.EOF; a return in between (for example when the inflater delivered the last bytes together with io.EOF and the caller's buffer is full) lets the next Read replay io.EOF without the checksum ever being read.")
+	extend("C05", Rule{ID: "R05.9", Configs: "all", Run: ruleR05_9},
+		"(R05.9) in the inflater no length (a value whose linear form contains len(...)) is converted to an integer type narrower than int: the give-back arithmetic is done on peek sizes, and a caller's bufio.Reader may hold 64 KiB or more.")
+}
+
+func ruleR07_6(p *Program, r *Report) {
+	r.Expect("R07.6", 4)
+	for _, ctx := range p.containerReaders(r, "R07.6") {
+		fn := ctx.fn
+		lab := newLabeler()
+		for _, b := range fn.Blocks {
+			for _, in := range b.Instrs {
+				ret, ok := in.(*ssa.Return)
+				if !ok {
+					continue
+				}
+				if reach, _, _ := (PathQuery{Start: ctx.inner, Target: func(x ssa.Instruction) bool { return x == ssa.Instruction(ret) }}).Find(fn); !reach {
+					continue
+				}
+				e := returnErr(ret)
+				key := shortFn(fn) + "|" + lab.get("return "+retLabel(p, e))
+				okRet := false
+				for _, f := range dominatingFacts(ret) {
+					if f.Y == nil || f.Op != token.NEQ {
+						continue
+					}
+					if (isStickyLoad(f.X, ctx.recv, ctx.tr.Sticky) && isSentinel(f.Y, "io", "EOF")) || (isStickyLoad(f.Y, ctx.recv, ctx.tr.Sticky) && isSentinel(f.X, "io", "EOF")) {
+						okRet = true
+					}
+				}
+				if !okRet {
+					if v, _ := ctx.verifiedAt(ret); v {
+						okRet = true
+					}
+				}
+				if !okRet && e != nil && isStickyLoad(e, ctx.recv, ctx.tr.Sticky) && !ctx.eofa.MayBeEOF(fn, e, ret) {
+					okRet = true
+				}
+				if !okRet && ctx.vcall != nil {
+					// behind the non-nil verdict of a verifying helper that records its own failures (never io.EOF)
+					for _, f := range dominatingFacts(ret) {
+						if f.Op == token.NEQ && f.Y != nil && ((f.X == ssa.Value(ctx.vcall) && isNil(f.Y)) || (f.Y == ssa.Value(ctx.vcall) && isNil(f.X))) {
+							if recordsItself(ctx.tr, ctx.vcall) && !ctx.eofa.MayBeEOF(fn, ctx.vcall, ret) {
+								okRet = true
+							}
+						}
+					}
+				}
+				if !okRet {
+					// every path from the inflater call to this return passes the equal side of the 'sticky != io.EOF' test
+					// only together with a later store of something that is not io.EOF (the reset before the next member)
+					safeStore := func(x ssa.Instruction) bool {
+						st, ok := x.(*ssa.Store)
+						if !ok || !isStickyStore(st, ctx.recv, ctx.tr.Sticky) {
+							return false
+						}
+						return isNil(st.Val) || !ctx.eofa.MayBeEOF(fn, st.Val, st)
+					}
+					notEOFEdge := func(a, b2 *ssa.BasicBlock) bool { return true }
+					_ = notEOFEdge
+					// paths that leave through the 'sticky != io.EOF' edge are fine: stop them there
+					stop := func(x ssa.Instruction) bool {
+						if safeStore(x) {
+							return true
+						}
+						return false
+					}
+					open, _, _ := PathQuery{Start: ctx.inner, Target: func(x ssa.Instruction) bool { return x == ssa.Instruction(ret) }, Barrier: stop, EdgeOK: func(a, b2 *ssa.BasicBlock) bool {
+						if br, ok := edgeCond(a, b2); ok {
+							if f, ok := branchFact(br); ok && f.Y != nil && f.Op == token.NEQ {
+								if (isStickyLoad(f.X, ctx.recv, ctx.tr.Sticky) && isSentinel(f.Y, "io", "EOF")) || (isStickyLoad(f.Y, ctx.recv, ctx.tr.Sticky) && isSentinel(f.X, "io", "EOF")) {
+									return false // on this edge the sticky field is known not to be io.EOF
+								}
+							}
+						}
+						return true
+					}}.Find(fn)
+					if !open {
+						okRet = true
+					}
+				}
+				why := ""
+				if !okRet {
+					why = "Read can return here after the inflater reported io.EOF (now in ." + ctx.tr.Sticky + ") and before the trailer has been read: the next Read replays io.EOF and the checksum is never compared"
+				}
+				r.Check(okRet, "R07.6", key, p.InstrPos(ret), "no return of Read leaves an unverified io.EOF in the sticky field", why)
+			}
+		}
+	}
+}
+
+func ruleR05_9(p *Program, r *Report) {
+	r.Expect("R05.9", 1)
+	sp := p.Pkg(flateRel)
+	n := 0
+	lab := newLabeler()
+	dn := p.Named(flateRel, "decompressor")
+	for _, fn := range p.Funcs() {
+		// the Reader's own bookkeeping (methods of the decompressor): the decode loops narrow match lengths, which are bounded
+		if fn.Pkg != sp || fn.Signature.Recv() == nil || derefNamed(fn.Signature.Recv().Type()) != dn {
+			continue
+		}
+		for _, b := range fn.Blocks {
+			for _, in := range b.Instrs {
+				cv, ok := in.(*ssa.Convert)
+				if !ok {
+					continue
+				}
+				from, to := intSize(cv.X.Type()), intSize(cv.Type())
+				if from != 8 || to == 0 || to >= 8 {
+					continue
+				}
+				l := linearizeWith(cv.X, true)
+				hasLen := false
+				for t := range l.terms {
+					if strings.HasPrefix(t, "len(") {
+						hasLen = true
+					}
+				}
+				if !hasLen {
+					continue
+				}
+				// a length that is provably small (bounded by a dominating comparison with a constant) is fine
+				if ub, ok := upperBoundOf(cv.X, cv); ok && ub < (int64(1)<<(uint(to)*8-1)) {
+					continue
+				}
+				n++
+				r.Fail("R05.9", shortFn(fn)+"|"+lab.get("narrowed length"), p.InstrPos(cv), "lengths keep the width of int", "a length is converted to a "+itoa(int(to*8))+"-bit integer: a peek of 64 KiB or more wraps around and the give-back is computed from the wrapped value")
+			}
+		}
+	}
+	if n == 0 {
+		r.OK("R05.9", "census", "-", "no length is narrowed below int in the inflater")
+	}
+}
+
+// upperBoundOf: a constant upper bound of v at instruction `at` from a dominating comparison v < k / v <= k.
+func upperBoundOf(v ssa.Value, at ssa.Instruction) (int64, bool) {
+	for _, f := range dominatingFacts(at) {
+		if f.Y == nil {
+			continue
+		}
+		if stripConv(f.X) == stripConv(v) {
+			if k, ok := constInt(f.Y); ok {
+				switch f.Op {
+				case token.LSS:
+					return k - 1, true
+				case token.LEQ, token.EQL:
+					return k, true
+				}
+			}
+		}
+		if stripConv(f.Y) == stripConv(v) {
+			if k, ok := constInt(f.X); ok {
+				switch f.Op {
+				case token.GTR:
+					return k - 1, true
+				case token.GEQ, token.EQL:
+					return k, true
+				}
+			}
+		}
+	}
+	return 0, false
+}
+
+// ---------- R04.14: the end-of-input roll-back of the Go decode loop is not unconditional for packed entries ----------
+
+func init() {
+	extend("C04", Rule{ID: "R04.14", Configs: "all", Run: ruleR04_14},
+		"(R04.14) in the Go decode loop every place that reports errEndInput for a literal/length entry is immediately controlled (directly or through the other operand of an && chain) by a test of the number of symbols the table entry packs against 1: an entry that packs several short codes is not rolled back whole - a delivery that had stopped a few bits earlier would already have emitted its leading symbols - but retried one symbol at a time. (Found as defect #27; the rule fires on the tree before 61397fa.)")
+}
+
+func ruleR04_14(p *Program, r *Report) {
+	r.Expect("R04.14", 2)
+	fn := p.Func(flateRel, "decodeHuffmanLargeLoop")
+	off, okO := constOf(p, flateRel, "largeSymCountOffset")
+	if fn == nil || !okO {
+		r.Undecided("R04.14", "anchors", "-", "decodeHuffmanLargeLoop and largeSymCountOffset exist", "not found")
+		return
+	}
+	// is v derived from the packed-symbol count of a lookup entry (entry >> largeSymCountOffset)?
+	var fromCount func(v ssa.Value, d int, seen map[ssa.Value]bool) bool
+	fromCount = func(v ssa.Value, d int, seen map[ssa.Value]bool) bool {
+		if v == nil || d > 8 || seen[v] {
+			return false
+		}
+		seen[v] = true
+		switch x := v.(type) {
+		case *ssa.BinOp:
+			if x.Op == token.SHR {
+				if k, ok := constInt(x.Y); ok && k == off {
+					return true
+				}
+			}
+			return fromCount(x.X, d+1, seen) || fromCount(x.Y, d+1, seen)
+		case *ssa.Phi:
+			for _, e := range x.Edges {
+				if fromCount(e, d+1, seen) {
+					return true
+				}
+			}
+		case *ssa.Convert:
+			return fromCount(x.X, d+1, seen)
+		case *ssa.UnOp:
+			return fromCount(x.X, d+1, seen)
+		}
+		return false
+	}
+	// a test of the count against 1: count > 1, count >= 2, count != 1 (or a boolean that holds such a comparison)
+	var isPackedTest func(v ssa.Value, d int) bool
+	isPackedTest = func(v ssa.Value, d int) bool {
+		if d > 4 || v == nil {
+			return false
+		}
+		switch x := v.(type) {
+		case *ssa.BinOp:
+			switch x.Op {
+			case token.GTR, token.GEQ, token.NEQ, token.LSS, token.LEQ, token.EQL:
+				for _, pair := range [][2]ssa.Value{{x.X, x.Y}, {x.Y, x.X}} {
+					if k, ok := constInt(pair[1]); ok && (k == 1 || k == 2) && fromCount(pair[0], 0, map[ssa.Value]bool{}) {
+						return true
+					}
+				}
+			}
+		case *ssa.Phi:
+			for _, e := range x.Edges {
+				if isPackedTest(e, d+1) {
+					return true
+				}
+			}
+		case *ssa.UnOp:
+			return isPackedTest(x.X, d+1)
+		}
+		return false
+	}
+	pd := postDominators(fn)
+	immediate := func(b *ssa.BasicBlock) []*ssa.BasicBlock {
+		var out []*ssa.BasicBlock
+		for _, a := range fn.Blocks {
+			if len(a.Succs) != 2 {
+				continue
+			}
+			for _, s := range a.Succs {
+				if (s == b || pd.PostDominates(b, s)) && !(a != b && pd.PostDominates(b, a)) {
+					out = append(out, a)
+				}
+			}
+		}
+		return out
+	}
+	condOf := func(a *ssa.BasicBlock) ssa.Value {
+		if iff, ok := a.Instrs[len(a.Instrs)-1].(*ssa.If); ok {
+			return iff.Cond
+		}
+		return nil
+	}
+	n := 0
+	lab := newLabeler()
+	for _, b := range fn.Blocks {
+		for _, in := range b.Instrs {
+			ld, ok := in.(*ssa.UnOp)
+			if !ok || ld.Op != token.MUL {
+				continue
+			}
+			g, ok := ld.X.(*ssa.Global)
+			if !ok || g.Name() != "errEndInput" {
+				continue
+			}
+			n++
+			good := false
+			for _, a := range immediate(b) {
+				if isPackedTest(condOf(a), 0) {
+					good = true
+				}
+				for _, a2 := range immediate(a) { // the other operand of an && / || chain
+					if isPackedTest(condOf(a2), 0) {
+						good = true
+					}
+				}
+			}
+			why := ""
+			if !good {
+				why = "end of input is reported here whatever the number of symbols the table entry packs: a packed entry that does not fit (or whose match is cut) is rolled back whole, and what a truncated stream decodes to depends on the delivery"
+			}
+			r.Check(good, "R04.14", shortFn(fn)+"|"+lab.get("end of input"), p.InstrPos(ld), "the roll-back at the end of the input is decided on whether the entry packs more than one symbol", why)
+		}
+	}
+	if n == 0 {
+		r.Undecided("R04.14", shortFn(fn)+"|sites", p.Pos(fn.Pos()), "the Go decode loop reports errEndInput", "no use found")
+	}
+}
+
+// ---------- R04.15: a refill never puts more than 64 bits into the bit buffer ----------
+
+func init() {
+	extend("C04", Rule{ID: "R04.15", Configs: "all", Run: ruleR04_15},
+		"(R04.15) every refill of the inflater's 64-bit bit buffer (a value shifted left by the bit count and OR-ed into the buffer) is one of the two shapes whose size is tied to the room left: a whole little-endian word, with the bit count advanced by 8*(8 - (bitsLen+7)/8), or single bytes taken from input[:size] with size the smaller of (64 - bitsLen)/8 and len(input). A byte count computed any other way (8 - bitsLen/8, 'all the bytes that are left') overfills the buffer when it is not byte aligned; only deliveries that leave fewer than 8 bytes visible take these paths, so the all-at-once run stays correct.")
+}
+
+func ruleR04_15(p *Program, r *Report) {
+	r.Expect("R04.15", 6)
+	sp := p.Pkg(flateRel)
+	n := 0
+	// is v (an int32 count, possibly converted) the room formula (64 - B)/8 ?
+	isRoom := func(v ssa.Value) bool {
+		v = stripConv(v)
+		bo, ok := v.(*ssa.BinOp)
+		if !ok {
+			return false
+		}
+		if !((bo.Op == token.QUO && isConstVal(bo.Y, 8)) || (bo.Op == token.SHR && isConstVal(bo.Y, 3))) {
+			return false
+		}
+		sub, ok := stripConv(bo.X).(*ssa.BinOp)
+		return ok && sub.Op == token.SUB && isConstVal(sub.X, 64)
+	}
+	isLen := func(v ssa.Value) bool {
+		c, ok := stripConv(v).(*ssa.Call)
+		if !ok {
+			return false
+		}
+		bi, ok := c.Common().Value.(*ssa.Builtin)
+		return ok && bi.Name() == "len"
+	}
+	// consumed = 8 - (B+7)/8
+	isConsumed := func(v ssa.Value) bool {
+		sub, ok := stripConv(v).(*ssa.BinOp)
+		if !ok || sub.Op != token.SUB || !isConstVal(sub.X, 8) {
+			return false
+		}
+		q, ok := stripConv(sub.Y).(*ssa.BinOp)
+		if !ok || !((q.Op == token.QUO && isConstVal(q.Y, 8)) || (q.Op == token.SHR && isConstVal(q.Y, 3))) {
+			return false
+		}
+		add, ok := stripConv(q.X).(*ssa.BinOp)
+		return ok && add.Op == token.ADD && (isConstVal(add.Y, 7) || isConstVal(add.X, 7))
+	}
+	for _, fn := range p.Funcs() {
+		if fn.Pkg != sp {
+			continue
+		}
+		lab := newLabeler()
+		for _, b := range fn.Blocks {
+			for _, in := range b.Instrs {
+				or, ok := in.(*ssa.BinOp)
+				if !ok || or.Op != token.OR || intSize(or.Type()) != 8 {
+					continue
+				}
+				var shl *ssa.BinOp
+				for _, o := range []ssa.Value{or.X, or.Y} {
+					if s, ok := o.(*ssa.BinOp); ok && s.Op == token.SHL {
+						if _, isK := constInt(s.Y); !isK && intSize(stripConv(s.Y).Type()) == 4 {
+							shl = s
+						}
+					}
+				}
+				if shl == nil {
+					continue
+				}
+				n++
+				key := shortFn(fn) + "|" + lab.get("refill")
+				x := stripConv(shl.X)
+				why := ""
+				switch src := x.(type) {
+				case *ssa.Call:
+					f := src.Common().StaticCallee()
+					if f == nil || f.Name() != "Uint64" {
+						why = "the value shifted into the bit buffer is the result of " + calleeLabel(src) + ", not a little-endian word load"
+						break
+					}
+					// the bit count is advanced by 8*consumed in the same block
+					okAdv := false
+					for _, in2 := range b.Instrs {
+						mul, ok := in2.(*ssa.BinOp)
+						if !ok || !((mul.Op == token.MUL && (isConstVal(mul.Y, 8) || isConstVal(mul.X, 8))) || (mul.Op == token.SHL && isConstVal(mul.Y, 3))) {
+							continue
+						}
+						k := mul.X
+						if isConstVal(mul.X, 8) {
+							k = mul.Y
+						}
+						if isConsumed(k) {
+							okAdv = true
+						}
+					}
+					if !okAdv {
+						why = "after a word load the bit count is not advanced by 8*(8 - (bitsLen+7)/8)"
+					}
+				case *ssa.UnOp:
+					// a byte of input[:size]: find the slice the element address indexes
+					var sl *ssa.Slice
+					var bound ssa.Value
+					if ia, ok := src.X.(*ssa.IndexAddr); ok {
+						sl, _ = ia.X.(*ssa.Slice)
+						if sl != nil {
+							bound = sl.High
+						} else {
+							// input[i] under a loop test i < size
+							for _, f := range dominatingFacts(src) {
+								if f.Y != nil && f.Op == token.LSS && stripConv(f.X) == stripConv(ia.Index) {
+									bound = f.Y
+								}
+							}
+						}
+					}
+					if bound == nil {
+						why = "the byte shifted into the bit buffer does not come from a bounded prefix input[:size]"
+						break
+					}
+					room, other := false, ""
+					var edges []ssa.Value
+					if phi, ok := bound.(*ssa.Phi); ok {
+						edges = phi.Edges
+					} else {
+						edges = []ssa.Value{bound}
+					}
+					for _, e := range edges {
+						switch {
+						case isRoom(e):
+							room = true
+						case isLen(e):
+						default:
+							other = describeValue(e)
+						}
+					}
+					if !room || other != "" {
+						why = "the number of bytes taken is not the smaller of (64 - bitsLen)/8 and len(input)"
+						if other != "" {
+							why += " (it can be " + other + ")"
+						}
+					}
+				default:
+					why = "the value shifted into the bit buffer is neither a word load nor a byte of a bounded prefix of the input (" + describeValue(x) + ")"
+				}
+				r.Check(why == "", "R04.15", key, p.InstrPos(or), "a refill adds no more bits than the 64-bit buffer has room for", why)
+			}
+		}
+	}
+	if n == 0 {
+		r.Undecided("R04.15", "refills", "-", "the inflater refills its bit buffer by shifting input in at the bit count", "no such site found")
+	}
+}
+
+func isConstVal(v ssa.Value, k int64) bool {
+	c, ok := constInt(v)
+	return ok && c == k
 }
